@@ -815,10 +815,15 @@ func (in *Interp) binop(op token.Token, a, b Val, rt, ot types.Type) Val {
 				in.event(Event{Kind: "divide", Idx: y})
 			}
 			return bvArith("rem", x, y)
-		case token.EQL:
-			return boolBV(bvEq(x, y))
-		case token.NEQ:
-			return boolBV(bnot(bvEq(x, y)))
+		case token.EQL, token.NEQ:
+			e := bvEq(x, y)
+			if in.WrapEq && x.W > 4 {
+				e = wrapDef(e)
+			}
+			if op == token.NEQ {
+				e = bnot(e)
+			}
+			return boolBV(e)
 		case token.LSS:
 			return boolBV(bvLt(x, y))
 		case token.GTR:
